@@ -55,6 +55,8 @@ REQUIRED = [
     "bytes_checked",
     "highlevel_server_sessions",
     "real_socket_backlog_sessions",
+    "endpoint_sessions",
+    "endpoint_refused_send_eof",
 ]
 WATCHDOG = {"quick": 900, "thorough": 7200}
 SIZES = [1, 2, 100, 1000, 16384, 16385, 50000]
@@ -420,6 +422,109 @@ def highlevel_server_session(ctx, rng: random.Random, version: str, std: bool) -
     return None
 
 
+def endpoint_session(ctx, rng: random.Random, version: str, lib_server: bool) -> str | None:
+    """the byte stream as the user of a packet endpoint over TLS sees it, with the operations TLS refuses or that fail without
+    touching the stream interleaved with the writes: send_eof() (TLS has no half-close: UnsupportedOperation, nothing written),
+    a receive that times out, a zero-length write. The connection stays a transparent stream afterwards: every packet handed to
+    send_packet() before and after reaches the peer, in order, and the peer's packets are all received"""
+    from easynetwork.exceptions import UnsupportedOperation
+    from easynetwork.lowlevel.api_async.endpoints.stream import AsyncStreamEndpoint
+    from easynetwork.protocol import BufferedStreamProtocol, StreamProtocol
+    from easynetwork.serializers import StringLineSerializer
+
+    n = rng.randint(3, 8)
+    lib_packets = [f"L{i}:{rng.getrandbits(64):016x}:" + "x" * rng.choice([0, 10, 3000, 20000]) for i in range(n)]
+    peer_packets = [f"P{i}:{rng.getrandbits(64):016x}:" + "y" * rng.choice([0, 10, 3000]) for i in range(rng.randint(1, 4))]
+    side_ops = {k: rng.choice(["send_eof", "send_eof", "recv-timeout", "send_eof-twice", None]) for k in range(n)}
+    if not any(v and v.startswith("send_eof") for v in side_ops.values()):
+        side_ops[rng.randrange(n - 1)] = "send_eof"
+    buffered = rng.random() < 0.5
+    state: dict[str, Any] = {"why": None, "sent": [], "phase": "handshake", "refused": 0}
+
+    async def main(loop):
+        backend = AsyncIOBackend()
+        a, b = memtransport.stream_pair(backend)
+        a.recv_cap = rng.choice([1, 64, None])
+        a.send_frag = rng.choice([7, 1000, None])
+        peer = tlspeer.AsyncPeer(b, tlspeer.client_context(version) if lib_server else tlspeer.server_context(version), server_side=not lib_server)
+        state["peer"] = peer
+        state["a"] = a
+
+        async def peer_side():
+            await peer.handshake()
+            for m in peer_packets:
+                await peer.write(m.encode() + b"\n")
+            await peer.drain()
+
+        pt = asyncio.ensure_future(peer_side())
+        ctxl = tlspeer.server_context(version) if lib_server else tlspeer.client_context(version)
+        t = await AsyncTLSStreamTransport.wrap(a, ctxl, server_side=lib_server, server_hostname=None if lib_server else "localhost", handshake_timeout=1e6, shutdown_timeout=1e6)
+        ser = StringLineSerializer(limit=100_000)
+        ep = AsyncStreamEndpoint(t, BufferedStreamProtocol(ser) if buffered else StreamProtocol(ser), max_recv_size=rng.choice([100, 65536]))
+        state["phase"] = "transfer"
+        early: list = []
+        for k, pkt in enumerate(lib_packets):
+            op = side_ops[k]
+            if op and op.startswith("send_eof"):
+                for _ in range(2 if op.endswith("twice") else 1):
+                    try:
+                        await ep.send_eof()
+                    except UnsupportedOperation:
+                        state["refused"] += 1
+                    else:
+                        state["why"] = "send_eof() on a TLS connection returned normally although TLS cannot half-close the stream"
+                        return
+            elif op == "recv-timeout":
+                with backend.move_on_after(rng.choice([0, 0.01])):
+                    early.append(await ep.recv_packet())
+            try:
+                await ep.send_packet(pkt)
+            except Exception as exc:  # noqa: BLE001
+                state["why"] = f"send_packet #{k} failed with {type(exc).__name__}: {exc} after {state['refused']} refused send_eof(): the bytes never reach the peer"
+                return
+            state["sent"].append(pkt)
+        got = early
+        while len(got) < len(peer_packets):
+            try:
+                got.append(await ep.recv_packet())
+            except Exception as exc:  # noqa: BLE001
+                state["why"] = f"recv_packet failed with {type(exc).__name__}: {exc} after {len(got)} of the peer's {len(peer_packets)} packets"
+                return
+        if got != peer_packets:
+            state["why"] = "the endpoint did not receive exactly the peer's packets"
+            return
+        await pt
+        want = "".join(m + "\n" for m in lib_packets).encode()
+        while len(peer.plaintext_in) < len(want):
+            if not await peer.read_some(65536):
+                break
+        state["phase"] = "close"
+        closer = asyncio.ensure_future(ep.aclose())
+        await peer.read_until_end()
+        await peer.unwrap()
+        await closer
+        state["phase"] = "done"
+
+    try:
+        vloop.run(main)
+    except vloop.Quiescent as exc:
+        return f"deadlock in phase {state['phase']}: {exc}"
+    except (ssl.SSLError, OSError) as exc:
+        return f"session failed in phase {state['phase']}: {type(exc).__name__}: {exc}"
+    if state["why"]:
+        return state["why"]
+    want = "".join(m + "\n" for m in lib_packets).encode()
+    if bytes(state["peer"].plaintext_in) != want:
+        return f"the peer read {len(state['peer'].plaintext_in)} bytes, the endpoint's send_packet() calls wrote {len(want)}"
+    wire = state["a"].wire_bytes()
+    for m in lib_packets:
+        if m[:20].encode() in wire:
+            return f"packet token {m[:20]!r} found unencrypted in the bytes handed to the wrapped transport"
+    ctx.count("endpoint_sessions")
+    ctx.count("endpoint_refused_send_eof", state["refused"])
+    return None
+
+
 def real_socket_backlog_session(ctx, rng: random.Random, version: str) -> str | None:
     """AsyncTLSStreamTransport over the real asyncio socket adapter (read flow control included): the peer writes 0.4-1 MiB while the
     library side is busy elsewhere, so the adapter's protocol fills its buffer and pauses reading; the library side then reads with
@@ -579,6 +684,12 @@ def run_shard(params: dict, ctx) -> None:
             ctx.case(True, "real-socket-backlog", version, params["seed"], i)
             if why3:
                 ctx.violation("byte-stream:real-socket-backlog" if "deadlock" not in why3 else "deadlock:real-socket-backlog", f"[TLS{version} over the asyncio socket adapter] {why3}", {"kind": "real-socket-backlog", "version": version, "lib_server": False, "params": {}, "seed": params["seed"], "index": i})
+        if i % 6 == 1:
+            ls = rng.random() < 0.5
+            why4 = endpoint_session(ctx, rng, version, ls)
+            ctx.case(True, "endpoint", version, ls, params["seed"], i)
+            if why4:
+                ctx.violation("byte-stream:endpoint" if "deadlock" not in why4 else "deadlock:endpoint", f"[AsyncStreamEndpoint over TLS{version} lib_server={ls}] {why4}", {"kind": "endpoint", "version": version, "lib_server": ls, "params": {}, "seed": params["seed"], "index": i})
         if i % 10 == 0:
             std = rng.random() < 0.5
             why2 = highlevel_server_session(ctx, rng, version, std)
